@@ -14,6 +14,7 @@ def run(tier, seed):
     # arbitrary arity: segment induction for Choice, closure checks for Seq (section 0, deviation 4)
     segments.ChoiceSegments().run(rep, tier)
     segments.LongestSegments().run(rep, tier)
+    segments.SkipSegments().run(rep, tier)
     segments.seq_closure(rep, tier)
     wiring.rule_wrapper_obligations(rep, tier)
     wiring.a_subst_obligations(rep, tier)
@@ -21,7 +22,7 @@ def run(tier, seed):
     rep.functions.update(['sourcer.expressions.utils.if_succeeds', 'sourcer.expressions.utils.if_fails',
                           'sourcer.expressions.utils.breakable', 'sourcer.expressions.utils.skip_ignored',
                           'sourcer.expressions.base.Expression.compile'])
-    rep.assumptions.append('arity: Choice is proved for EVERY arity by segment induction (head / middle / last+tail triples from an arbitrary state satisfying the cut-point invariant + closure of the segment shapes at arity 5 and 7); Seq: outright <= 3/4 + closure (segments are proved shapes, items distinct, display in order); Longest: every arity by the same segment induction (ghost winner-so-far); Skip: outright <= 2/3, larger arities rest on A-uniform')
+    rep.assumptions.append('arity: Choice is proved for EVERY arity by segment induction (head / middle / last+tail triples from an arbitrary state satisfying the cut-point invariant + closure of the segment shapes at arity 5 and 7); Seq: every arity - each segment shape is a Hoare triple from an arbitrary chain position (the failure of the item itself, or value stored and chain extended), closure keyed by (kind, shape), items assigned once, distinct, display in order; Longest: every arity by the same segment induction (ghost winner-so-far); Skip: every arity by segment induction inside one loop iteration (J: at the checkpoint, no earlier item progresses) under the loop invariant of SkipC; every proved segment shape is keyed by the KIND (flags) of its child')
     rep.assumptions.append('re contract: matcher(text,pos) is None or a match with pos <= end <= len(text), a function of (pattern, flags, text, pos)')
     rep.assumptions.append('driver contract for rule references: the answer to a request (CALL, f, pos) is the outcome of f at pos (proved for _run under C07/C08)')
     return rep.finish()
